@@ -22,7 +22,8 @@ import ir2c  # noqa
 SRC = os.path.join(REPO, 'src', 'lib')
 REPO_INC = ['', 'common', 'crypto', 'data_mgr', 'handle_mgr', 'object_store', 'pkcs11', 'session_mgr', 'slot_mgr']
 CLANG_FLAGS = ['-std=c++20', '-O1', '-fno-vectorize', '-fno-slp-vectorize', '-fno-unroll-loops',
-               '-fno-threadsafe-statics', '-fno-strict-aliasing', '-Wno-everything', '-DNDEBUG', '-DHAVE_CONFIG_H']
+               '-fno-threadsafe-statics', '-fno-strict-aliasing', '-Wno-everything', '-DNDEBUG', '-DHAVE_CONFIG_H',
+               '-flto', '-fwhole-program-vtables', '-fvisibility=hidden']   # the last three make clang record the static class of every virtual call (llvm.type.test)
 EVIDENCE_DIR = os.path.join(VERIF, 'evidence')
 KNOWN = os.path.join(VERIF, 'known-findings.txt')
 print_lock = threading.Lock()
@@ -57,12 +58,12 @@ class Ob:
     """One obligation = one harness configuration = one CBMC run."""
     def __init__(s, name, harness, real=(), defines=None, unwind=6, unwindset=None, stubs=None, flags=(),
                  desc='', bounds='', tiers=('quick', 'thorough'), thorough=None, timeout=None, mem=None,
-                 diff=None, throw_assert=False, checks=False, expect_unreached=(), extra_c=(), encodes=(), caps=None):
+                 diff=None, throw_assert=False, checks=False, expect_unreached=(), extra_c=(), encodes=(), caps=None, unwind_rules=()):
         s.name = name; s.harness = harness; s.real = list(real); s.defines = dict(defines or {})
         s.unwind = unwind; s.unwindset = dict(unwindset or {}); s.stubs = dict(stubs or {}); s.flags = list(flags)
         s.desc = desc; s.bounds = bounds; s.tiers = tiers; s.thorough = thorough or {}
         s.timeout = timeout; s.mem = mem; s.diff = diff; s.throw_assert = throw_assert; s.checks = checks
-        s.caps = caps; s.expect_unreached = set(expect_unreached); s.extra_c = list(extra_c); s.encodes = list(encodes)
+        s.unwind_rules = list(unwind_rules); s.caps = caps; s.expect_unreached = set(expect_unreached); s.extra_c = list(extra_c); s.encodes = list(encodes)
 
     def for_tier(s, tier):
         if tier == 'thorough' and s.thorough:
@@ -106,19 +107,40 @@ def translate(ob, W, norm):
     c, info = ir2c.translate(text, roots, set(ob.stubs.keys()), rename)
     gen = os.path.join(W, 'gen.c')
     open(gen, 'w').write(c)
+    with open(os.path.join(W, 'vraw_defs.c'), 'w') as f:   # definitions of the harness's raw typed storage for the native C++ build
+        for name, size in info.get('vraw', []): f.write('char %s[%d] __attribute__((aligned(16)));\n' % (name, size))
     return gen, info
 
 
 CBMC_BASE = ['--function', 'ir_entry', '--unwinding-assertions', '--drop-unused-functions', '--json-ui',
-             '--object-bits', '10']
+             '--object-bits', '10', '--sat-solver', 'cadical']
+
+
+DEFAULT_UNWIND_RULES = [(r'GLOBAL__sub_I|__cxx_global_var_init', 40)]
+
+
+def loop_unwindset(ob, W, gen):
+    """per-loop bounds: loops whose id matches a rule get that bound (static initialisers, harness set-up loops, ...)"""
+    cache = os.path.join(W, 'unwindset.txt')
+    if os.path.exists(cache): return open(cache).read().strip()
+    rules = list(ob.unwind_rules) + DEFAULT_UNWIND_RULES
+    rc, so, se, dt = run(['cbmc', gen, os.path.join(VERIF, 'harness', 'common', 'env_cbmc.c'), '--show-loops'], cwd=W, timeout=300)
+    sets = dict(ob.unwindset)
+    for m in re.finditer(r'^Loop (\S+):', so, re.M):
+        lid = m.group(1)
+        for rx, b in rules:
+            if re.search(rx, lid) and lid not in sets: sets[lid] = b; break
+    txt = ','.join('%s:%d' % kv for kv in sets.items())
+    open(cache, 'w').write(txt)
+    return txt
 
 
 def cbmc_cmd(ob, W, gen, extra=(), slice_formula=True):
     cmd = ['cbmc', gen, os.path.join(VERIF, 'harness', 'common', 'env_cbmc.c')] + [os.path.join(VERIF, 'harness', x) for x in ob.extra_c]
     cmd += CBMC_BASE + ['--unwind', str(ob.unwind)]
     if slice_formula: cmd += ['--slice-formula']   # not for trace runs: slicing drops nondet inputs outside the cone of influence from the trace
-    if ob.unwindset:
-        cmd += ['--unwindset', ','.join('%s:%d' % kv for kv in ob.unwindset.items())]
+    us = loop_unwindset(ob, W, gen)
+    if us: cmd += ['--unwindset', us]
     if not ob.checks: cmd += ['--no-standard-checks']
     else: cmd += ['--pointer-check', '--bounds-check', '--div-by-zero-check', '--no-signed-overflow-check',
                   '--no-pointer-primitive-check', '--no-undefined-shift-check', '--no-malloc-may-fail']
@@ -223,6 +245,10 @@ def native_build(ob, W, mode):
             rc, so, se, dt = run(['gcc', '-c', shim, '-o', so_], timeout=60)
             if rc != 0: raise RuntimeError('shim failed: ' + se[-1000:])
             objs.append(so_)
+        vr = os.path.join(W, 'vraw_defs.o')
+        rc, so, se, dt = run(['gcc', '-c', os.path.join(W, 'vraw_defs.c'), '-o', vr], timeout=60)
+        if rc != 0: raise RuntimeError('vraw_defs failed: ' + se[-1000:])
+        objs.append(vr)
         link_with_stubs(['g++', '-o', exe] + san + objs + [envo] + ['-Wl,--allow-multiple-definition', '-Wl,--no-demangle'], W, mode)
     else:
         extra = [os.path.join(VERIF, 'harness', x) for x in ob.extra_c]
@@ -326,6 +352,8 @@ def decide(prop, ob, tier, seed, workroot, keep=False):
             R['status'] = 'vacuous'; R['detail'] = 'reachability witnesses not reachable: lines %s' % unreached; return R
         if failed_asserts:
             findings, fixed = load_known()
+            failed_lines = set(l for (_, l, _) in failed_asserts if l > 0)
+            seen_keys = set()
             for (pname, line, desc) in failed_asserts:
                 key = '%s:L%d' % (ob.name, line)
                 # counterexample trace for this property
@@ -342,7 +370,12 @@ def decide(prop, ob, tier, seed, workroot, keep=False):
                 stream = extract_stream(trace)
                 rcn, outn, errn = replay_native(ob, W, stream)
                 confirmed = False; how = ''
+                mfail = re.search(r'ASSERT-FAIL (\d+) ', outn)
                 if line > 0 and ('ASSERT-FAIL %d ' % line) in outn: confirmed = True; how = 'native assertion L%d failed' % line
+                elif line > 0 and mfail and int(mfail.group(1)) in failed_lines:
+                    # the native run stops at the FIRST failing assertion; an earlier harness assertion that CBMC also refuted fails first
+                    confirmed = True; how = 'native run fails the earlier assertion L%s (also refuted by CBMC) before reaching L%d' % (mfail.group(1), line)
+                    line = int(mfail.group(1)); key = '%s:L%d' % (ob.name, line)
                 elif line == 0 and ('THROW' in outn or 'terminate' in errn): confirmed = True; how = 'native run threw a C++ exception: ' + outn.strip()[-100:]
                 elif line == -1 and (rcn not in (0, 10, 12) or 'ERROR: AddressSanitizer' in errn or 'runtime error' in errn):
                     confirmed = True; how = 'native run crashed / sanitizer report: ' + (errn.strip().split('\n')[0] if errn.strip() else 'rc=%d' % rcn)
@@ -355,6 +388,8 @@ def decide(prop, ob, tier, seed, workroot, keep=False):
                 if not confirmed:
                     R['status'] = 'unconfirmed'; R['detail'] = 'counterexample for %s (L%d) did not reproduce natively: %s | %s' % (pname, line, outn.strip()[-200:], errn.strip()[-300:]); R['replay'] = rpath
                     return R
+                if key in seen_keys: continue
+                seen_keys.add(key)
                 kf = [f for f in findings if f['prop'] == prop and f['key'] == key]
                 if kf: R['known'].append(dict(key=key, text=kf[0]['text'], replay=rpath))
                 else: R['violations'].append(dict(key=key, line=line, desc=desc, replay=rpath, how=how))
@@ -456,7 +491,7 @@ def write_evidence(prop, tier, seed, results, wall, viol, known, errors):
                   rule='evaluations = CBMC properties (harness assertions, reachability witnesses, unwinding assertions, memory-safety checks where enabled) decided by the SAT back end in this run over the C translation of the current /repo sources; distinct_nontrivial = obligations (distinct harness configurations, each a different entry point / operation / symbolic dimension) whose every assertion was proved AND whose reachability witnesses were all shown reachable (non-vacuous)',
                   samples=samples, obligations=len(results), discharged=sum(1 for r in results if r['status'] == 'ok'),
                   functions_encoded=real_funcs[:400], functions_encoded_count=len(funcs),
-                  solver='cbmc 6.11 (MiniSat back end), --unwinding-assertions', solver_time_s=round(sum(r['cbmc_s'] for r in results), 1),
+                  solver='cbmc 6.11 (CaDiCaL SAT back end), --unwinding-assertions', solver_time_s=round(sum(r['cbmc_s'] for r in results), 1),
                   peak_rss_kb=max([r['rss_kb'] for r in results] or [0]),
                   translator_diff_runs=sum((r['diff'] or {}).get('streams', 0) for r in results),
                   outside_bounds=meta.get('outside', ''), known_findings_hit=[k['key'] for k in known],
